@@ -327,6 +327,31 @@ Section WithCipher.
   Definition fresh_call (key : bytes) (c : call) : call_res :=
     match c with CEnc f => REnc (encrypt key f) | CDec f => RDec (decrypt key f) end.
 
+  (** ** one packet OBJECT tried under several keys (ZigbeeDecryptor.attempt_to_decrypt on an NWK
+      frame, APSManager.decrypt over its candidate keys): each attempt gets the object the
+      previous attempt returned — decrypt mutates and returns its argument *)
+  Fixpoint ring_decrypt (keys : list bytes) (f : frame) : pyres (option frame) :=
+    match keys with
+    | [] => Ok None
+    | k :: r =>
+      match decrypt k f with
+      | Ok (g, true) => Ok (Some g)
+      | Ok (g, false) => ring_decrypt r g
+      | Raise cls => Raise cls
+      end
+    end.
+  (** the same, every attempt on the ORIGINAL frame *)
+  Fixpoint ring_decrypt_pure (keys : list bytes) (f : frame) : pyres (option frame) :=
+    match keys with
+    | [] => Ok None
+    | k :: r =>
+      match decrypt k f with
+      | Ok (g, true) => Ok (Some g)
+      | Ok (_, false) => ring_decrypt_pure r f
+      | Raise cls => Raise cls
+      end
+    end.
+
   (** [encrypt] applied to a packet in which the manager's base-class layer is absent:
       generateAuth evaluates packet[self.base_class:], which raises IndexError (scapy). *)
   Definition encrypt_packet (base_present : bool) (key : bytes) (f : frame) : pyres frame :=
@@ -765,6 +790,15 @@ Fixpoint check_calls_from (key : bytes) (s : mstate) (cs : list (bool * frame * 
 Definition check_calls (c : bytes * list (bool * frame * bytes * obs)) : bool :=
   let '(key, cs) := c in check_calls_from key ms_init cs.
 
+(** ZigbeeDecryptor on an NWK frame: (key ring, frame, observed decrypted data or None) *)
+Definition check_ring (c : list bytes * frame * option bytes) : bool :=
+  let '(keys, f, o) := c in
+  match ring_decrypt aes128_enc keys f, o with
+  | Ok (Some g), Some d => bytes_eqb (f_data g) d
+  | Ok None, None => true
+  | _, _ => false
+  end.
+
 (** APS secured data request: observed exception class (None = a frame was produced) *)
 Definition check_aps_data (c : bytes * N * bytes * bytes * option string) : bool :=
   let '(key, fc, src, asdu, oexc) := c in
@@ -845,16 +879,20 @@ Fixpoint ktables_eqb (ms : list material) (obs : list (N * bytes * list (bytes *
   | _, _ => false
   end.
 
-Fixpoint check_hsteps (hs : hstate) (ps : list (hitem * obs_up * N * list (N * bytes * list (bytes * N)))) : bool :=
+(** the tables are compared after every item, or (long histories with many senders: [None]) after
+    some of them including the last *)
+Fixpoint check_hsteps (hs : hstate) (ps : list (hitem * obs_up * N * option (list (N * bytes * list (bytes * N))))) : bool :=
   match ps with
   | [] => true
   | (it, o, act, t) :: r =>
     let '(o', hs') := hstep aes128_enc hs it in
     match o' with Some x => up_eqb x o | None => match o with ObsNone => true | _ => false end end
-    && (snd hs' =? act) && ktables_eqb (n_mats (fst hs')) t && check_hsteps hs' r
+    && (snd hs' =? act)
+    && match t with Some t' => ktables_eqb (n_mats (fst hs')) t' | None => true end
+    && check_hsteps hs' r
   end.
 
-Definition check_nwk_mgmt (c : hstate * list (hitem * obs_up * N * list (N * bytes * list (bytes * N)))) : bool :=
+Definition check_nwk_mgmt (c : hstate * list (hitem * obs_up * N * option (list (N * bytes * list (bytes * N))))) : bool :=
   let '(hs, ps) := c in check_hsteps hs ps.
 
 (** boolean form of the freshness theorem's conclusion, for the model-side search *)
